@@ -271,8 +271,12 @@ def check_pair(pair):
                             label=comp.labels()[i][d[0]] if isinstance(d[0], int) else None)
     # 2. both storage forms, encoded by pybufrkit from the same JSON, decode identically
     res = {}
+    # on every other case the strings are handed over without their blank padding (the way a user writes them)
+    unpad = int(comp.key()[:2], 16) % 2 == 1
+    if unpad:
+        out.classes.append('strings_given_unpadded')
     for name, case in (('compressed', comp), ('uncompressed', unc)):
-        flat = encutil.flat_json_of_case(case)
+        flat = encutil.flat_json_of_case(case, unpad=unpad)
         oe = sut.call(encoder().process, flat)
         if not oe.ok:
             return out.fail('encoder raised %s@%s (%s)' % (oe.exc_type, oe.frame, name), error=oe.msg)
